@@ -48,13 +48,13 @@ func resStr(f func() bool) (s string) {
 
 // one side (A or R) of a request
 type side struct {
-	enc    []byte
-	dec    bool
-	canon  bool
-	zero   bool     // prime-order part vanishes
-	t      int      // torsion index
-	dlog   *big.Int // prime-order discrete log (0 when unknown / undecodable)
-	known  bool     // dlog known
+	enc   []byte
+	dec   bool
+	canon bool
+	zero  bool     // prime-order part vanishes
+	t     int      // torsion index
+	dlog  *big.Int // prime-order discrete log (0 when unknown / undecodable)
+	known bool     // dlog known
 }
 
 func mkSide(r *vt.Rng, kind int, dl *big.Int, t int) side {
@@ -69,7 +69,6 @@ func mkSide(r *vt.Rng, kind int, dl *big.Int, t int) side {
 		return side{enc: vt.Undecodable(r), dlog: big.NewInt(0)}
 	}
 }
-
 
 // a verification request of known class
 type vclass struct {
